@@ -1,7 +1,14 @@
 package props
 
 import (
+	"fmt"
+	"go/token"
+	"go/types"
+
+	"golang.org/x/tools/go/ssa"
+
 	"gogucheck/core"
+	"gogucheck/path"
 )
 
 func init() {
@@ -16,7 +23,7 @@ func init() {
 		Run: func(p *core.Program, r *core.Report) {
 			res := runLockset(p)
 			checkGuardTable(res, r, funcTypes)
-			emitLockset(res, r, map[string]bool{"LK1": true, "LK2": true, "LK3": true, "LK4": true, "AT1": true, "CV1": true, "CV2": true, "CV3": true}, funcTypes)
+			emitLockset(res, r, map[string]bool{"LK1": true, "LK2": true, "LK3": true, "LK4": true, "AT1": true, "AT2": true, "AT3": true, "CV1": true, "CV2": true, "CV3": true}, funcTypes)
 			r.Floor("LK1", 15)
 			r.Floor("CV2", 1)
 			r.Floor("CV3", 3)
@@ -25,4 +32,357 @@ func init() {
 	})
 }
 
-var c20Extra = func(p *core.Program, r *core.Report) {}
+// slotOf: v is &x.F for a struct type named typ; returns the field name.
+func slotOf(v ssa.Value, typ string) (string, bool) {
+	fa, ok := v.(*ssa.FieldAddr)
+	if !ok {
+		return "", false
+	}
+	t := fa.X.Type()
+	if pt, ok := t.Underlying().(*types.Pointer); ok {
+		t = pt.Elem()
+	}
+	n, ok := t.(*types.Named)
+	if !ok || n.Obj().Name() != typ {
+		return "", false
+	}
+	st, ok := n.Underlying().(*types.Struct)
+	if !ok {
+		return "", false
+	}
+	return st.Field(fa.Field).Name(), true
+}
+
+// loadOfSlot: v is a load of slot typ.field.
+func loadOfSlot(v ssa.Value, typ, field string) bool {
+	u, ok := v.(*ssa.UnOp)
+	if !ok || u.Op != token.MUL {
+		return false
+	}
+	f, ok := slotOf(u.X, typ)
+	return ok && f == field
+}
+
+func isAllocBase(v ssa.Value) bool {
+	if fa, ok := v.(*ssa.FieldAddr); ok {
+		_, isAlloc := fa.X.(*ssa.Alloc)
+		return isAlloc
+	}
+	return false
+}
+
+// boolGuards: the (slot, value) pairs known on every path to target through
+// branches on plain boolean loads of slots of typ: "if x.f" / "if !x.f".
+func boolGuards(fn *ssa.Function, target *ssa.BasicBlock, typ string) map[string]bool {
+	out := map[string]bool{}
+	for _, g := range path.Guards(fn, target) {
+		c := g.If.Cond
+		neg := false
+		for {
+			if u, ok := c.(*ssa.UnOp); ok && u.Op == token.NOT {
+				neg = !neg
+				c = u.X
+				continue
+			}
+			break
+		}
+		u, ok := c.(*ssa.UnOp)
+		if !ok || u.Op != token.MUL {
+			continue
+		}
+		if f, ok := slotOf(u.X, typ); ok {
+			val := g.Idx == 0 // true edge: cond true
+			if neg {
+				val = !val
+			}
+			out[f] = val
+		}
+	}
+	return out
+}
+
+func c20Extra(p *core.Program, r *core.Report) {
+	// ---- AF1: Delay hands the callback to time.AfterFunc with the delay parameter, and nowhere else
+	if fn := mustFunc(p, r, "gogu.Delay"); fn != nil {
+		cb, d := funcParam(fn), paramByName(fn, "delay")
+		ok := cb != nil && d != nil
+		uses := 0
+		if ok {
+			for _, ref := range *cb.Referrers() {
+				uses++
+				c, isCall := ref.(*ssa.Call)
+				if !isCall || !path.IsCallTo(c, "time", "AfterFunc") || len(c.Call.Args) != 2 || c.Call.Args[1] != ssa.Value(cb) || c.Call.Args[0] != ssa.Value(d) {
+					ok = false
+					r.Violation(core.Diag{Rule: "AF1", Func: "gogu.Delay", Object: "callback flow", Pos: p.InstrPos(ref),
+						Reason: "the callback is used other than as the function argument of time.AfterFunc(delay, fn) with the delay parameter: it can run earlier than the configured wait"})
+				}
+			}
+			if uses == 0 {
+				ok = false
+				r.Violation(core.Diag{Rule: "AF1", Func: "gogu.Delay", Object: "callback flow", Pos: p.Pos(fn.Pos()), Reason: "the callback is never scheduled"})
+			}
+		}
+		r.Obligation("AF1", ok, map[string]any{"rule": "AF1", "function": "gogu.Delay", "uses_of_callback": uses, "ok": ok})
+	}
+	// ---- debouncer.add
+	if fn := mustFunc(p, r, "gogu.(*debouncer).add"); fn != nil {
+		name := "gogu.(*debouncer).add"
+		cb := funcParam(fn)
+		al := path.Aliases(fn, cb, true)
+		// every AfterFunc in add (and its closures) uses the immutable duration slot
+		sched := 0
+		var timers []ssa.Value
+		for _, in := range path.Instrs(fn) {
+			if !path.IsCallTo(in, "time", "AfterFunc") {
+				continue
+			}
+			c := in.(*ssa.Call)
+			okDur := loadOfSlot(c.Call.Args[0], "debouncer", "duration")
+			arg := c.Call.Args[1]
+			okFn := al[arg]
+			if mc, isMC := arg.(*ssa.MakeClosure); isMC && !okFn {
+				// a closure that wraps the callback: it must call it at most once and be used nowhere else
+				g := mc.Fn.(*ssa.Function)
+				n := path.MaxCount(g, isCallOf(al))
+				refs := 0
+				for _, ref := range *mc.Referrers() {
+					if ref != ssa.Instruction(c) {
+						refs++
+					}
+				}
+				okFn = n == 1 && refs == 0
+			}
+			if okFn {
+				sched++
+				timers = append(timers, c)
+			}
+			ok := okDur && okFn
+			r.Obligation("AF1", ok, map[string]any{"rule": "AF1", "function": name, "at": p.InstrPos(in), "duration_is_configured_wait": okDur, "function_arg_is_callback": okFn})
+			if !okDur {
+				r.Violation(core.Diag{Rule: "AF1", Func: name, Object: "timer duration", Pos: p.InstrPos(in),
+					Reason: "time.AfterFunc is not called with the debouncer's configured duration: the function can run sooner than the configured wait after the most recent call"})
+			}
+		}
+		// the callback is never invoked synchronously in add
+		for _, c := range path.CallsOfValue(fn, cb, true) {
+			sync := c.Parent() == fn
+			if !sync {
+				// inside a closure: the closure must only be handed to AfterFunc
+				mcOK := false
+				for _, in := range path.Instrs(fn) {
+					if mc, ok := in.(*ssa.MakeClosure); ok && mc.Fn == ssa.Value(c.Parent()) {
+						mcOK = true
+						for _, ref := range *mc.Referrers() {
+							if !path.IsCallTo(ref, "time", "AfterFunc") {
+								mcOK = false
+							}
+						}
+					}
+				}
+				sync = !mcOK
+			}
+			r.Obligation("AF1", !sync, map[string]any{"rule": "AF1", "function": name, "what": "callback not invoked synchronously", "at": p.InstrPos(c), "ok": !sync})
+			if sync {
+				r.Violation(core.Diag{Rule: "AF1", Func: name, Object: "callback flow", Pos: p.InstrPos(c),
+					Reason: "the debounced function is invoked outside a timer callback: it runs without waiting"})
+			}
+		}
+		// PT2: a new timer holding the callback is stored on every path
+		isNewTimerStore := func(in ssa.Instruction) bool {
+			st, ok := in.(*ssa.Store)
+			if !ok {
+				return false
+			}
+			if f, ok := slotOf(st.Addr, "debouncer"); !ok || f != "timer" {
+				return false
+			}
+			for _, t := range timers {
+				if st.Val == t {
+					return true
+				}
+			}
+			return false
+		}
+		min := path.MinCount(fn, isNewTimerStore)
+		ok := min >= 1 && sched >= 1
+		r.Obligation("PT2", ok, map[string]any{"rule": "PT2", "function": name, "what": "every path schedules the callback and keeps the timer", "min_stores": min, "ok": ok})
+		if !ok {
+			r.Violation(core.Diag{Rule: "PT2", Func: name, Object: "schedule on every path", Pos: p.Pos(fn.Pos()),
+				Reason: "some path through add does not schedule the function and store its timer: the function would never run although no further call or cancel arrives"})
+		}
+	}
+	// duration slot written only from NewDebounce's wait parameter
+	if fn := mustFunc(p, r, "gogu.NewDebounce"); fn != nil {
+		w := paramByName(fn, "wait")
+		n := 0
+		for _, g := range p.Funcs {
+			for _, in := range path.Instrs(g) {
+				st, ok := in.(*ssa.Store)
+				if !ok {
+					continue
+				}
+				if f, ok := slotOf(st.Addr, "debouncer"); ok && f == "duration" {
+					n++
+					ok := g == fn && w != nil && st.Val == ssa.Value(w)
+					r.Obligation("AF1", ok, map[string]any{"rule": "AF1", "function": p.FuncName(g), "what": "debouncer.duration is the wait parameter", "at": p.InstrPos(in), "ok": ok})
+					if !ok {
+						r.Violation(core.Diag{Rule: "AF1", Func: p.FuncName(g), Object: "configured duration", Pos: p.InstrPos(in),
+							Reason: "debouncer.duration is written with something other than NewDebounce's wait parameter"})
+					}
+				}
+			}
+		}
+		if n == 0 {
+			r.Violation(core.Diag{Rule: "AF1", Func: "gogu.NewDebounce", Object: "configured duration", Pos: p.Pos(fn.Pos()), Reason: "debouncer.duration is never set from the wait parameter"})
+		}
+	}
+	// ---- SR1 stop-before-replace: a store to debouncer.timer is reachable only through
+	// Stop() of the old timer or through the "old timer == nil" edge
+	for _, g := range p.Funcs {
+		for _, in := range path.Instrs(g) {
+			st, ok := in.(*ssa.Store)
+			if !ok || isAllocBase(st.Addr) {
+				continue
+			}
+			if f, ok := slotOf(st.Addr, "debouncer"); !ok || f != "timer" {
+				continue
+			}
+			okS := stopBeforeStore(g, st)
+			r.Obligation("SR1", okS, map[string]any{"rule": "SR1", "function": p.FuncName(g), "what": "pending timer stopped before the reference is replaced or cleared", "at": p.InstrPos(in), "ok": okS})
+			if !okS {
+				r.Violation(core.Diag{Rule: "SR1", Func: p.FuncName(g), Object: "store debouncer.timer", Pos: p.InstrPos(in),
+					Reason: "the timer reference is replaced or cleared on a path that neither stopped the pending timer nor established that there is none: that timer can no longer be stopped and its function fires after cancel / a second time in the burst"})
+			}
+		}
+	}
+	// ---- throttler: monotone stop flag, grant guard, period stamp
+	stampOK := 0
+	for _, g := range p.Funcs {
+		for _, in := range path.Instrs(g) {
+			st, ok := in.(*ssa.Store)
+			if !ok || isAllocBase(st.Addr) {
+				continue
+			}
+			f, ok := slotOf(st.Addr, "throttler")
+			if !ok {
+				continue
+			}
+			gname := p.FuncName(g)
+			switch f {
+			case "stop":
+				b, isC := path.BoolConst(st.Val)
+				okM := isC && b
+				r.Obligation("MF1", okM, map[string]any{"rule": "MF1", "function": gname, "what": "stop is only ever set to true", "at": p.InstrPos(in), "ok": okM})
+				if !okM {
+					r.Violation(core.Diag{Rule: "MF1", Func: gname, Object: "store throttler.stop", Pos: p.InstrPos(in),
+						Reason: "the stop flag is stored something other than the constant true: after Cancel a pending or future Next could return true again"})
+				}
+			case "waiting":
+				b, isC := path.BoolConst(st.Val)
+				if isC && b {
+					gs := boolGuards(g, in.Block(), "throttler")
+					w, hasW := gs["waiting"]
+					s, hasS := gs["stop"]
+					okG := hasW && !w && hasS && !s
+					r.Obligation("GG1", okG, map[string]any{"rule": "GG1", "function": gname, "what": "a permission is granted only when none is pending and the throttle is not cancelled", "at": p.InstrPos(in), "ok": okG})
+					if !okG {
+						r.Violation(core.Diag{Rule: "GG1", Func: gname, Object: "grant guard", Pos: p.InstrPos(in),
+							Reason: "waiting = true is not dominated by the tests !waiting and !stop"})
+					}
+				}
+			case "last":
+				// TS1: the period starts where a permission is consumed: same block region as waiting = false, value time.Now()
+				okV := false
+				if c, ok := st.Val.(*ssa.Call); ok && path.IsCallTo(c, "time", "Now") {
+					okV = true
+				}
+				consumes := false
+				for _, in2 := range path.Instrs(g) {
+					st2, ok := in2.(*ssa.Store)
+					if !ok {
+						continue
+					}
+					if f2, ok := slotOf(st2.Addr, "throttler"); ok && f2 == "waiting" {
+						if b, isC := path.BoolConst(st2.Val); isC && !b {
+							if in2.Block() == in.Block() || in2.Block().Dominates(in.Block()) || in.Block().Dominates(in2.Block()) {
+								consumes = true
+							}
+						}
+					}
+				}
+				okT := okV && consumes
+				if okT {
+					stampOK++
+				}
+				r.Obligation("TS1", okT, map[string]any{"rule": "TS1", "function": gname, "what": "period start stamped with time.Now() where the permission is consumed", "at": p.InstrPos(in), "ok": okT})
+				if !okT {
+					r.Violation(core.Diag{Rule: "TS1", Func: gname, Object: "store throttler.last", Pos: p.InstrPos(in),
+						Reason: "the start of the period is written somewhere other than where a permission is consumed (waiting = false), or not with the current time: a delayed consumer lets two permissions fall into one period"})
+				}
+			}
+		}
+	}
+	okStamp := stampOK >= 1
+	r.Obligation("TS1", okStamp, map[string]any{"rule": "TS1", "what": "consuming a permission stamps the period start", "stamps": stampOK})
+	if !okStamp {
+		r.Violation(core.Diag{Rule: "TS1", Func: "gogu.(*throttler).Next", Object: "period stamp", Pos: "-",
+			Reason: "no function stamps the period start when it consumes a permission"})
+	}
+	r.Floor("AF1", 3)
+	r.Floor("SR1", 2)
+	r.Floor("MF1", 1)
+	r.Floor("GG1", 2)
+	_ = fmt.Sprint
+}
+
+// stopBeforeStore: no path from the entry of fn reaches st without passing
+// (*time.Timer).Stop on a load of the timer slot or the nil edge of a
+// "timer != nil" / "timer == nil" test.
+func stopBeforeStore(fn *ssa.Function, st *ssa.Store) bool {
+	type pos struct {
+		b *ssa.BasicBlock
+	}
+	seen := map[*ssa.BasicBlock]bool{}
+	var visit func(b *ssa.BasicBlock) bool // true = store reachable unprotected
+	visit = func(b *ssa.BasicBlock) bool {
+		if seen[b] {
+			return false
+		}
+		seen[b] = true
+		for _, in := range b.Instrs {
+			if in == ssa.Instruction(st) {
+				return true
+			}
+			if path.IsCallTo(in, "time", "Timer.Stop") {
+				c := in.(ssa.CallInstruction)
+				if len(c.Common().Args) == 1 && loadOfSlot(c.Common().Args[0], "debouncer", "timer") {
+					return false // protected from here on
+				}
+			}
+		}
+		if iff := path.BlockIf(b); iff != nil {
+			if cd, ok := path.CondOf(iff); ok && (cd.Op == token.EQL || cd.Op == token.NEQ) {
+				x := cd.X
+				if path.IsNil(x) {
+					x = cd.Y
+				}
+				if (path.IsNil(cd.X) || path.IsNil(cd.Y)) && loadOfSlot(x, "debouncer", "timer") {
+					isEq := (cd.Op == token.EQL) != cd.Neg
+					nilIdx := 1
+					if isEq {
+						nilIdx = 0
+					}
+					// the nil edge is protected; follow only the non-nil edge
+					return visit(b.Succs[1-nilIdx])
+				}
+			}
+		}
+		for _, s := range b.Succs {
+			if visit(s) {
+				return true
+			}
+		}
+		return false
+	}
+	return !visit(fn.Blocks[0])
+}
